@@ -7,7 +7,7 @@ open C10lib
 
 let bmp_kind = function
   | "rm" -> coq_K_RM | "stats" -> coq_K_STATS | "pd" -> coq_K_PEERDOWN | "pu" -> coq_K_PEERUP
-  | "init" -> coq_K_INIT | "term" -> coq_K_TERM | s -> failwith ("bad bmp kind " ^ s)
+  | "init" -> coq_K_INIT | "term" -> coq_K_TERM | "mirror" -> coq_K_MIRROR | s -> failwith ("bad bmp kind " ^ s)
 
 let run_case (line : string) : string =
   match Stdlib.List.map words (split_on ';' line) with
@@ -28,18 +28,26 @@ let run_case (line : string) : string =
             call (FilterUnits.rib_view ((n 0, n (i_of pfx)), n 7) (Some (parse_attrs a)))
         | ["G"; asn; a; na; nw] ->
             let na = i_of na and nw = i_of nw in
-            call { in_kind = coq_K_RM; in_pfx = n 0; in_attrs = (if na > 0 then Some (parse_attrs a) else None);
-                   in_nann = n na; in_nwd = n nw; in_pph_asn = None; in_peer_asn = n (i_of asn); in_ingress = n 7;
-                   in_legacy_as = false }
+            let pfxs k base = Stdlib.List.init k (fun j -> n (base + j)) in
+            (* the UPDATE is described by its counts; the prefixes themselves do not matter to a bgp-in filter *)
+            call (FilterUnits.bgp_view (FilterUnits.sess_prov (n 7) (n 0) (n (i_of asn)))
+                    (BmpModel.URoutes (n 0, pfxs na 0, n 1, n 0, pfxs nw 100)) (parse_attrs a) false)
         | ["M"; k; asn; as2; a; na; nw] ->
             let na = i_of na and nw = i_of nw in
-            let has_pph = not (k = "init" || k = "term") in
-            let rm = (k = "rm") in
-            call { in_kind = bmp_kind k; in_pfx = n 0;
-                   in_attrs = (if rm && na > 0 then Some (parse_attrs a) else None);
-                   in_nann = n (if rm then na else 0); in_nwd = n (if rm then nw else 0);
-                   in_pph_asn = (if has_pph then Some (n (i_of asn)) else None);
-                   in_peer_asn = n (if has_pph then i_of asn else 0); in_ingress = n 7;
-                   in_legacy_as = (as2 = "1") }
+            let pfxs c base = Stdlib.List.init c (fun j -> n (base + j)) in
+            let pph : BmpModel.pph = ((((((n 0, n 0), n 0), n 0), n 1), n (i_of asn)), n 1) in
+            let b : FilterUnits.bmsg = match k with
+              | "rm" -> FilterUnits.BMsg (BmpModel.MRoute (pph, Some (BmpModel.URoutes (n 0, pfxs na 0, n 1, n 0, pfxs nw 100))))
+              | "stats" -> FilterUnits.BMsg (BmpModel.MStats pph)
+              | "pd" -> FilterUnits.BMsg (BmpModel.MPeerDown pph)
+              | "pu" -> FilterUnits.BMsg (BmpModel.MPeerUp (pph, false))
+              | "init" -> FilterUnits.BMsg BmpModel.MInit
+              | "term" -> FilterUnits.BMsg BmpModel.MTerm
+              | "mirror" -> FilterUnits.BMirror pph
+              | s -> failwith ("bad bmp kind " ^ s) in
+            (* the input as the call site builds it: message kind, per-peer header, bmp_prov of the connection *)
+            let i = FilterUnits.bmp_view (FilterUnits.conn_prov (n 7) (n 0)) b (parse_attrs a) (as2 = "1") in
+            if i.in_kind <> bmp_kind k then failwith "kind";
+            call i
         | _ -> failwith ("bad op: " ^ join " " op)) ops;
       finish !mo !so (fun a b -> if a = b then "." else "K2")
